@@ -16,12 +16,32 @@ import (
 
 // C17 — Retransmission discipline: timer law, backoff, and no retransmission storms.
 //
-// Enumerated (see families below): handshake variant x cut-off endpoint X x cut position K (every datagram
-// of the default run that is destined to X, plus "after completion") x network mode after the cut x initial
-// interval {100 ms, 1 s, 7 s} x backoff on/off x follow-up {none, next genuine flight xJ, first datagram
-// only, stale copy, garbage, 200-datagram storms (stale/garbage, back-to-back/paced), release of withheld
-// datagrams} x follow-up time (after M = 1,2,3 timeouts) x follow-up target (X or its peer).
-// Oracle: oracle.go (exact fake-clock timer law etc.).
+// One case = one execution of two real dtls.Conn endpoints in the bubble world:
+//
+//   prefix   reliable FIFO delivery of the default run until the K-th datagram destined to endpoint X is
+//            at the head of the network ("cut"); K ranges over every datagram of the default run towards
+//            X, plus K = all of them (the completed association);
+//   mode     isolate: from the cut on every datagram is dropped (total silence for both endpoints);
+//            deaf:    datagrams towards X are dropped, X's own (re)transmissions still reach the peer;
+//            hold:    like deaf, but the datagrams towards X are withheld and released later;
+//   follow-up (one per case, after M timeouts, i.e. at cut + I+2I+..+ivl(M-1) + ivl(M)/2):
+//            none (silence until the horizon) | genuine xJ: the J most recent copies of the flight the
+//            other side keeps sending (for X: the NEXT flight, then retransmissions of it; for X's peer:
+//            retransmissions of X's PREVIOUS flight) | first: only the first datagram of a multi-datagram
+//            flight | have: exactly the datagrams of the peer's retransmission that X already holds |
+//            stale: byte-identical replay + the same old flight under fresh record sequence numbers |
+//            garbage: 6-7 kinds of bytes nobody sent | storms of 200 stale / garbage datagrams, back to back
+//            or paced at 0.37 I | release: everything withheld is delivered at once and the network is
+//            reliable afterwards (zero-time closure, capped);
+//   config   initial interval {100 ms, 1 s, 7 s} x backoff {on, off}.
+//
+// Families: A = (X, K, isolate|deaf, no follow-up); B = (X, K, isolate, M, target in {X, peer}, genuine x{1,2,5}
+// | first | have | stale | garbage) and (X, K, deaf, M, genuine x{1,2,5} fed back to X); S = storms in every
+// cut state (M=1); R = (X, K, hold, M, release). Quick tier: 8 variants, M in {1,2,3}, storms at I = 1 s.
+// Thorough tier: 11 variants, M in {1,2,3,7}, storms at every interval, longer no-backoff horizons.
+// Not enumerated (bounded out): a further delivery deviation inside the prefix ("<=1 further dd" of DESIGN.md).
+//
+// Oracle: oracle.go. Findings are keyed "<rule>:<variant>:<endpoint>:<flight>/<FSM state>".
 
 var intervals = []time.Duration{100 * time.Millisecond, time.Second, 7 * time.Second}
 
@@ -95,7 +115,7 @@ func pickVariants(want []string) []checks.Variant {
 
 // horizonFor: 10 fake minutes whenever backoff is on (the 60 s cap needs them). With backoff disabled the
 // spacing is constant and the cap never comes into play: pure-silence cases observe 10 minutes (thorough) or
-// 600 intervals (quick), follow-up cases observe 60 intervals after the follow-up.
+// 600 intervals (quick), follow-up cases observe 60 (quick) / 600 (thorough) intervals after the follow-up.
 func horizonFor(sc scen, thorough bool) time.Duration {
 	if !sc.NoBackoff {
 		return 10 * time.Minute
@@ -105,7 +125,11 @@ func horizonFor(sc scen, thorough bool) time.Duration {
 	case sc.Fol == folNone && !thorough:
 		h = 600 * sc.Ivl
 	case sc.Fol != folNone:
-		h = sc.trigger() + 60*sc.Ivl
+		n := time.Duration(60)
+		if thorough {
+			n = 600
+		}
+		h = sc.trigger() + n*sc.Ivl
 		if sc.Fol == folPacedStale || sc.Fol == folPacedGarb {
 			h += 80 * sc.Ivl
 		}
@@ -118,6 +142,7 @@ func horizonFor(sc scen, thorough bool) time.Duration {
 
 func enumerate(vs []checks.Variant, pbs map[string]probe, thorough bool) []scen {
 	var out []scen
+	ms := msFor(thorough) // thorough adds 7 timeouts: the 60 s cap has been reached (1 s, 7 s) before the follow-up
 	add := func(sc scen) {
 		sc.Horizon = horizonFor(sc, thorough)
 		out = append(out, sc)
@@ -145,7 +170,7 @@ func enumerate(vs []checks.Variant, pbs map[string]probe, thorough bool) []scen 
 							}
 						}
 						// family B: one follow-up input after M timeouts
-						for _, M := range []int{1, 2, 3} {
+						for _, M := range ms {
 							// ... in deaf mode (the peer keeps hearing X, its replies pile up) the pile is fed back to X
 							if !completed {
 								for _, J := range []int{1, 2, 5} {
@@ -202,6 +227,13 @@ func enumerate(vs []checks.Variant, pbs map[string]probe, thorough bool) []scen 
 		}
 	}
 	return out
+}
+
+func msFor(thorough bool) []int {
+	if thorough {
+		return []int{1, 2, 3, 7}
+	}
+	return []int{1, 2, 3}
 }
 
 func stateBucket(n int) string {
@@ -333,6 +365,6 @@ func TestC17(t *testing.T) {
 		probes[n] = fmt.Sprintf("to_client=%d to_server=%d C=%d F=%d", pb.nTo[cli], pb.nTo[srv], pb.C, pb.F)
 	}
 	run.Main(t, "C17", cases, map[string]any{"variants": len(vs), "intervals": fmt.Sprint(intervals), "backoff": "on,off",
-		"timeouts_before_followup": "1,2,3", "genuine_bursts": "1,2,5", "storm_size": 200, "silence_horizon": "10m (fake)",
+		"timeouts_before_followup": fmt.Sprint(msFor(env.Thorough())), "genuine_bursts": "1,2,5", "storm_size": 200, "silence_horizon": "10m (fake)",
 		"default_run": probes, "cases": len(cases)})
 }
